@@ -462,7 +462,8 @@ def git_made(ctx, repo, n_commits, n_tags, n_trees, stub):
             # without an encoding header git commit-tree rewrites bytes that are not valid UTF-8
             # (verify_utf8 transcodes them from Latin-1); such inputs get an explicit encoding
             try:
-                (an + ae + cn + ce + (msg or b"")).decode("utf-8")
+                for part in (an, ae, cn, ce, msg or b""):
+                    part.decode("utf-8")
             except UnicodeDecodeError:
                 enc = b"ISO-8859-1"
         signed = rng.random() < 0.3
